@@ -75,13 +75,21 @@ def apply(ctx, W):
             let ed = res->Ok_0->0.inner->Enum_0;
             forall|k: int| 0 <= k < ed.fields@.len() ==> fits_base(ed.type_, (#[trigger] ed.fields@[k]).1)
         })""", ("C08",), "enum-value-fits-base"),
+        ("""res is Ok && res->Ok_0 is Some ==> ({
+            let isr = res->Ok_0->0; let ed = isr.inner->Enum_0;
+            forall|k: int| 0 <= k < ed.fields@.len() ==> fits_width(isr.size, base_is_signed(ed.type_), (#[trigger] ed.fields@[k]).1)
+        })""", ("C08",), "enum-value-fits-width"),
     ])
+    ghost(ctx, fw, u, before(fw, fw.top_let(fn, "is_signed")), 'proof { reveal_strlit("i8"); reveal_strlit("i16"); reveal_strlit("i32"); reveal_strlit("i64"); reveal_strlit("i128"); }')
+    ghost(ctx, fw, u, after(fw, fw.top_let(fn, "is_signed")), "proof { assert(is_signed == base_is_signed(ty)); }")
     # the base-type test (F23): the last path segment matched against the ten integer names
     ghost(ctx, fw, u, before(fw, fw.top_let(fn, "is_integer")), 'proof { reveal_strlit("u8"); reveal_strlit("u16"); reveal_strlit("u32"); reveal_strlit("u64"); reveal_strlit("u128"); reveal_strlit("i8"); reveal_strlit("i16"); reveal_strlit("i32"); reveal_strlit("i64"); reveal_strlit("i128"); }')
     l1, l2, l3 = fw.loop(fn, 1), fw.loop(fn, 2), fw.loop(fn, 3)
     rules.for_to_index_loop(ctx, fw, u, l1, seq="definition.statements", ivar="i_s")
     rules.index_loop_spec(ctx, fw, u, l1, tags=("C08", "C20"), invariants=[
         "fields@.len() == i_s",
+        ("forall|k: int| 0 <= k < i_s ==> fits_width(size, is_signed, (#[trigger] fields@[k]).1)", ("C08",)),
+        ("min_value == width_min(size, is_signed) && max_value == width_max(size, is_signed)", ("C08",)),
         "forall|k: int| 0 <= k < i_s ==> enum_value(definition.statements@, k) == Some((#[trigger] fields@[k]).1) && fields@[k].0 == definition.statements@[k].name.0",
         "last_field == (if i_s == 0 { Some(0isize) } else { let p = enum_value(definition.statements@, i_s - 1)->0; if p + 1 <= isize::MAX { Some((p + 1) as isize) } else { None::<isize> } })",
         "forall|k: int| 0 <= k < i_s ==> (stmt_is_default(#[trigger] definition.statements@[k]) <==> default_index == Some(k as usize))",
@@ -92,6 +100,7 @@ def apply(ctx, W):
     rules.index_loop_spec(ctx, fw, u, l2, tags=("C08",), invariants=[
         "0 < i_s <= definition.statements.len()",
         "fields@.len() == i_s",
+        ("forall|k: int| 0 <= k < i_s ==> fits_width(size, is_signed, (#[trigger] fields@[k]).1)", ("C08",)),
         "*attributes == definition.statements@[i_s - 1].attributes",
         "forall|k: int| 0 <= k < i_s - 1 ==> (stmt_is_default(#[trigger] definition.statements@[k]) <==> default_index == Some(k as usize))",
         """has_ident(attributes.0@, "default"@, i_a as int) <==> default_index == Some((i_s - 1) as usize)""",
